@@ -2,12 +2,12 @@ ID = "C23"
 LEVEL = "model_checking"
 TECHNIQUE = "CBMC bounded symbolic execution of http.c leaf parsers vs RFC 9112 reference recognisers (compositional)"
 UNITS = ["http.c", "http-internal.h", "evutil.c"]
-FUNCTIONS = ["evhttp_parse_request_line", "evhttp_parse_http_version"]
-BOUNDS = "request line <= 20 bytes (thorough 24), all bytes symbolic except NUL"
-OUT = "URI syntax of the target (C28 contract stub); embedded NUL bytes in the request line; extension methods shorter than 3 bytes"
-TEXT = "work in progress"
-NOTE = ""
-ASSUMPTIONS = []
+FUNCTIONS = ['evhttp_parse_firstline_', 'evhttp_parse_request_line', 'evhttp_parse_http_version', 'evhttp_parse_headers_', 'evhttp_append_to_last_header', 'evhttp_add_header', 'evhttp_header_is_valid_value', 'evhttp_add_header_internal', 'evhttp_find_header', 'evhttp_count_headers', 'evhttp_get_body', 'evhttp_get_body_length', 'evhttp_method_may_have_body_', 'evhttp_method_', 'evhttp_handle_chunked_read', 'evutil_ascii_strcasecmp', 'evutil_rtrim_lws_', 'evutil_strtoll']
+BOUNDS = 'request line <=20 symbolic bytes (thorough 24, NUL included); header section <=2 lines of <=8 bytes (thorough 10); framing decision: 10 (thorough 16) enumerated shapes of <=2 (3) fields {Content-Length, Transfer-Encoding, Connection, X-Y} with symbolic values <=8 (10) bytes [<=5 (6) when two Content-Length], all methods, HTTP/1.1; chunked body: symbolic stream <=8 (10) bytes; segmentation: stream <=6/7/14 (8/9/16) bytes for headers/chunked/status line with symbolic cut point, two reads'
+OUT = 'URI syntax of the target (C28: evhttp_uri_parse* are contract stubs); extension methods shorter than 3 bytes (14-byte minimum line length); whole connection flow / pipelining / 100-continue / responses written (C26, C27); HTTP/1.0 requests with Transfer-Encoding; line extraction over evbuffer chains (contract model env/http_lines.h and flat evbuffer env/http_flatbuf.h; buffer.c is C12/C13); NUL bytes inside chunk-size lines; Content-Length values longer than the value bound (overflow guard of the fix is exercised up to 10 digits only); trailer section contents (parsed by evhttp_parse_headers_ = obligation headers)'
+TEXT = 'Compositional (DESIGN 3.8): each server-side parsing leaf of http.c is run on fully symbolic bytes against an RFC 9112 reference recogniser (ref/http_ref.h): request line (method table, target split, version), header section (field split, OWS, obs-fold, NUL/CR, white space before colon), framing decision of evhttp_get_body (Content-Length 1*DIGIT and conflicts, Transfer-Encoding exactly chunked, methods without body), chunked decoder (size line, extensions, CRLF after data, last chunk), and segmentation independence of the stateful parsers (one read vs two reads at a symbolic cut). Accepted input must be what the reference derives (same fields), required rejections must happen, strictly grammatical input must be accepted.'
+NOTE = """Trusted: cbmc 6.11; libc models env/http_fmt.h (strtoll, sscanf "HTTP/%c.%c%c", strsep, strpbrk, ctype table checked against glibc); allocator env/http_alloc.h (strings in 32-byte objects: overruns inside the slack are not seen); reference ref/http_ref.h. libevent's deliberately non-conformant acceptance of white space inside the request target (EVHTTP_URI_NONCONFORMANT, regress http/simple_nonconformant) is modelled as intended behaviour: the reference splits such lines at the first and last SP. 9 defects found and fixed in /repo (fixes/C23-*.diff)."""
+ASSUMPTIONS = ['evbuffer_readln(EVBUFFER_EOL_CRLF) behaves as documented: line without its LF / CRLF terminator, length reported, bytes may include NUL but never LF (env/http_lines.h, env/http_flatbuf.h)', 'evhttp_uri_parse_with_flags / evhttp_uri_parse_authority read the target without modifying it and return an object or NULL (contract stub, C28)', 'framing harness: field values arrive OWS-trimmed and free of CR/LF/NUL (what obligation `headers` establishes for evhttp_parse_headers_)', 'continuations of evhttp_get_body (evhttp_connection_done, evhttp_connection_fail_, evhttp_read_body, evhttp_send_error, evhttp_lingering_fail, evhttp_send_continue) are recorders']
 DESIGN_REF = "DESIGN.md §5 C23"
 
 CUT_URI = [["--replace-calls", "evhttp_uri_parse_with_flags:vp_cut_uri_parse"],
@@ -21,7 +21,20 @@ CUT_BODY = [["--replace-calls", "evhttp_connection_done:vp_cut_connection_done"]
             ["--replace-calls", "evhttp_send_continue:vp_cut_send_continue"]]
 KF_FRAMING = ["TE_NOT_CHUNKED", "CL_DUP", "CL_SYNTAX", "NOBODY_METHOD"]
 
+def _with_token_set(obs):
+    # evhttp_add_header checks names against the 77-character token alphabet (strspn): the membership loop of the
+    # strspn/strpbrk model needs up to 78 rounds on that constant set
+    for o in obs:
+        us = list(o.get("unwindset", []))
+        if not any(u.startswith("vp_in_set.0:") for u in us):
+            us.append("vp_in_set.0:80")
+        o["unwindset"] = us
+    return obs
+
 def obligations(tier):
+    return _with_token_set(_obligations(tier))
+
+def _obligations(tier):
     n = 20 if tier == "quick" else 24
     obs = [dict(name="reqline", harness="C23_reqline.c", entry="harness_reqline",
                 defines=["VP_N=%d" % n], unwind=n + 3, instrument=CUT_URI,
